@@ -2,6 +2,6 @@ P('C19', shards=16,
   technique='property-based testing of generated write scripts x wrapped-writer fault scripts x consumer behaviours inside a testing/synctest bubble (deterministic placement of the consumer, deadlock detection); oracle: prefix-sum model',
   text='Generated scripts of Write/WriteString calls (0..64 KiB) run against a wrapped writer that writes fully, short, or fails after k bytes (with and without io.StringWriter) while a consumer is absent, receiving before chosen writes, starting late or draining greedily; '
        'synctest.Wait() places the consumer deterministically in its receive before the write. Size() must equal the sum of the reported counts after every call, (n, err) and the bytes must pass through unchanged, received values must be non-decreasing prefix sums, '
-       'a Write with nobody receiving must return (the bubble reports a blocked Write as a deadlock), and after Close() the last received value must be the final total with the channel closed. Exploration, not proof.',
+       'a Write with nobody receiving must return (the bubble reports a blocked Write as a deadlock), and after Close() the last received value must be the final total with the channel closed. TestConcurrentConsumer adds a consumer receiving in a tight loop on its own goroutine during thousands of writes. Exploration, not proof.',
   note='Trusts testing/synctest for quiescence and deadlock detection and the 10-line prefix-sum model; silent on whether a receiving consumer must get every single update.',
   design='3/C19')
